@@ -382,3 +382,47 @@ V('C18-append-to-tree', 'C18', ND,
   "            pending_nodes.append( n )\n            if keep_empty and n.isNodeType(LatexGroupNode): n.nodelist.nodelist.append(None)\n", 'R18d')
 V('C18-benign', 'C18', ND,
   "        # untested code !\n", "        # (code is covered by tests now)\n", 'SILENT')
+
+
+# ----------------------------------------------------------------------- C04 / C13
+UE = 'pylatexenc/latexencode/_unicode_to_latex_encoder.py'
+PE = 'pylatexenc/latexencode/_partial_latex_encoder.py'
+V('C04-revert-D16', 'C04', PE,
+  """            try:
+                tok = lw.make_token_reader(pos=pos).peek_token(parsing_state=ps)
+            except LatexWalkerTokenParseError:
+                # not a well-formed LaTeX token (e.g., lone escape character at
+                # the end of the string) -- let the other rules encode it
+                return None
+""",
+  """            tok = lw.make_token_reader(pos=pos).peek_token(parsing_state=ps)
+""", 'R04e', 'D16: token parse error escapes from the partial encoder')
+V('C04-rules-sorted', 'C04', UE,
+  "        self._compiled_rules = []\n",
+  "        expanded_conversion_rules = sorted(expanded_conversion_rules, key=lambda r: r.rule_type)\n        self._compiled_rules = []\n", 'R04a')
+V('C04-regex-consumes-one', 'C04', UE,
+  "                self._apply_replacement(p, replstr, m.end() - m.start(), rule)",
+  "                self._apply_replacement(p, replstr, 1, rule)", 'R04b')
+V('C04-rule-protection-ignored', 'C04', UE,
+  "        if ruleobj.replacement_latex_protection is not None:",
+  "        if ruleobj.replacement_latex_protection is not None and protect_fn is None:", 'R04c')
+V('C04-no-nfc', 'C04', UE,
+  "        s = unicodedata.normalize('NFC', s)\n", "", 'R04f')
+V('C04-skip-no-advance', 'C04', UE,
+  "            p.latex += s[p.pos]\n            p.pos += 1\n            return True",
+  "            p.latex += s[p.pos]\n            return True", 'R04b')
+V('C04-benign', 'C04', UE,
+  "        # check for possible replacement latex protection, like braces.\n",
+  "        # check for a possible replacement latex protection, like braces.\n", 'SILENT')
+V('C13-table-raw-percent', 'C13', 'pylatexenc/latexencode/_uni2latexmap.py',
+  "0x0025: r'\\%',", "0x0025: r'%',", 'R13a')
+V('C13-table-unbalanced', 'C13', 'pylatexenc/latexencode/_uni2latexmap.py',
+  "0x003C: r'\\ensuremath{<}',", "0x003C: r'\\ensuremath{<',", 'R13b')
+V('C13-protection-unbalanced', 'C13', UE,
+  "            return repl + '{}'\n", "            return repl + '{'\n", 'R13c')
+V('C13-replace-policy-raw', 'C13', UE,
+  "        return r'{\\bfseries ?}'\n", "        return r'{\\bfseries ' + ch + '}'\n", 'R13d')
+V('C13-skip-ascii-255', 'C13', UE,
+  "        if ord(s[p.pos]) < 127:", "        if ord(s[p.pos]) < 256:", 'R13e')
+V('C13-benign', 'C13', UE,
+  "        # no protection\n", "        # no protection at all\n", 'SILENT')
